@@ -103,7 +103,8 @@ impl<'a> SdesChunk<'a> {
                 ret.items.push(item);
             }
 
-            while offset < data.len() && data[offset] == 0 {
+            let fill_end = pad_to_4bytes(offset);
+            while offset < data.len() && offset < fill_end && data[offset] == 0 {
                 offset += 1;
             }
         }
